@@ -9,7 +9,9 @@
 //   -DCFG_CAT=0|1|2     0 = int, 1 = declared trivially relocatable, 2 = non relocatable (self-referential)
 //   -DCFG_ALLOC=0|1     0 = amc::BasicAllocatorWrapper over an instrumented basic allocator (has reallocate),
 //                       1 = std-like ledger allocator (no reallocate)
+#ifndef CFG_NO_EXTRAS
 #define AMC_NONSTD_FEATURES
+#endif
 #include <amc/fixedcapacityvector.hpp>
 #include <amc/smallvector.hpp>
 #include <amc/vector.hpp>
@@ -84,8 +86,20 @@ using Vec2 = Vec;
 
 static const int kMaxPool = 6;
 static int gPool = 3;
-alignas(Vec) static unsigned char gStore[kMaxPool][sizeof(Vec)];
+// every pool object has two possible homes, so that it can be relocated byte-wise (C14)
+alignas(Vec) static unsigned char gStoreA[kMaxPool][sizeof(Vec)];
+alignas(Vec) static unsigned char gStoreB[kMaxPool][sizeof(Vec)];
+static unsigned char *gStore[kMaxPool] = {gStoreA[0], gStoreA[1], gStoreA[2], gStoreA[3], gStoreA[4], gStoreA[5]};
 static Vec *V(int c) { return reinterpret_cast<Vec *>(gStore[c]); }
+static bool relocateBytes(int c) {
+  if (!amc::is_trivially_relocatable<Vec>::value) return false;
+  unsigned char *from = gStore[c];
+  unsigned char *to = from == gStoreA[c] ? gStoreB[c] : gStoreA[c];
+  std::memcpy(to, from, sizeof(Vec));
+  std::memset(from, 0xAB, sizeof(Vec));  // the source is abandoned: a stale pointer into it reads garbage
+  gStore[c] = to;
+  return true;
+}
 static Ref gRef[kMaxPool];
 static int gPool2 = 0;
 alignas(Vec2) static unsigned char gStore2[kMaxPool][sizeof(Vec2)];
@@ -232,6 +246,11 @@ int main(int argc, char **argv) {
       Ref &r2 = gRef2[d];
       typedef typename Vec2::size_type ST2;
       try {
+#ifndef AMC_NONSTD_FEATURES
+        if (true) {
+          skip = true;
+        } else
+#endif
         if (op == "push2") {
           Elem e((int)N(2));
           w.push_back(e);
@@ -239,7 +258,7 @@ int main(int argc, char **argv) {
         } else if (op == "apr2") {
           std::vector<int> vals = parseList(T(2));
           std::vector<Elem> src(vals.begin(), vals.end());
-          w.append(src.data(), src.data() + src.size());
+          w.insert(w.end(), src.data(), src.data() + src.size());
           r2.insert(r2.end(), vals.begin(), vals.end());
         } else if (op == "rsv2") {
           w.reserve((ST2)N(2));
@@ -269,8 +288,12 @@ int main(int argc, char **argv) {
       Ref a0 = gRef[c], b0 = gRef2[d];
       G().fuel = armed;
       try {
+#ifdef AMC_NONSTD_FEATURES
         V(c)->swap2(*W(d));
         gRef[c].swap(gRef2[d]);
+#else
+        res = "skip";
+#endif
       } catch (const std::overflow_error &) {
         res = "exc:overflow";
       } catch (const std::out_of_range &) {
@@ -417,6 +440,7 @@ int main(int argc, char **argv) {
             r.pop_back();
           }
         } else if (op == "popv") {
+#ifdef AMC_NONSTD_FEATURES
           if (sz == 0) skip = true;
           else {
             {
@@ -426,6 +450,9 @@ int main(int argc, char **argv) {
             if (ret != std::to_string(r.back())) oracle = "MISMATCH-ret";
             r.pop_back();
           }
+#else
+          skip = true;
+#endif
         } else if (op == "clr") {
           v.clear();
           r.clear();
@@ -487,6 +514,7 @@ int main(int argc, char **argv) {
           v.shrink_to_fit();
           G().fuel = 0;
         } else if (op == "apr" || op == "apri") {
+#ifdef AMC_NONSTD_FEATURES
           std::vector<int> vals = parseList(T(2));
           std::vector<Elem> src(vals.begin(), vals.end());
           G().fuel = armed;
@@ -498,18 +526,30 @@ int main(int argc, char **argv) {
           }
           G().fuel = 0;
           r.insert(r.end(), vals.begin(), vals.end());
+#else
+          skip = true;
+#endif
         } else if (op == "apn") {
+#ifdef AMC_NONSTD_FEATURES
           G().fuel = armed;
           v.append((ST)N(2));
           G().fuel = 0;
           r.resize(r.size() + (size_t)N(2));
+#else
+          skip = true;
+#endif
         } else if (op == "apv") {
+#ifdef AMC_NONSTD_FEATURES
           Elem e((int)N(3));
           G().fuel = armed;
           v.append((ST)N(2), e);
           G().fuel = 0;
           r.insert(r.end(), (size_t)N(2), (int)N(3));
+#else
+          skip = true;
+#endif
         } else if (op == "apvs") {
+#ifdef AMC_NONSTD_FEATURES
           if (sz == 0) skip = true;
           else {
             size_t i = N(3) % sz;
@@ -519,6 +559,9 @@ int main(int argc, char **argv) {
             G().fuel = 0;
             r.insert(r.end(), (size_t)N(2), val);
           }
+#else
+          skip = true;
+#endif
         } else if (op == "cpy") {
           int d = (int)N(2);
           G().fuel = armed;
@@ -566,6 +609,9 @@ int main(int argc, char **argv) {
             r = std::move(gRef[d]);
             gRef[d].clear();
           }
+        } else if (op == "reloc") {
+          // move the container object to another address by a raw byte copy, abandoning the source (only if it claims the trait)
+          if (!relocateBytes(c)) skip = true;
         } else if (op == "at") {
           const Elem &e = v.at((ST)N(2));
           ret = std::to_string(valueOf(e));
